@@ -14,6 +14,7 @@ from typing import TYPE_CHECKING, ClassVar, Generator
 from exabgp.util.types import Buffer
 
 if TYPE_CHECKING:
+    from exabgp.rib.route import Route
     from exabgp.bgp.message.open.capability.negotiated import Negotiated
     from exabgp.bgp.message.update import Update
 
@@ -58,6 +59,23 @@ def validate_announce_nlri(nlri: 'NLRI', nexthop: IP) -> str | None:
         if isinstance(nlri, IPVPN) and nlri.rd is RouteDistinguisher.NORD:
             return f'VPN route announce requires RD: {nlri}'
 
+    return None
+
+
+def validate_announce_route(route: 'Route') -> str | None:
+    """validate_announce_nlri, and the one thing it cannot see: the next hop of the route against its NEXT_HOP attribute.
+
+    `next-hop` written twice leaves the LAST value on the route and the FIRST in the attribute (a second attribute of
+    one code is ignored): IPv4 unicast is sent with one, everything rendered or carried in MP_REACH_NLRI says the other,
+    and `next-hop self next-hop 192.0.2.1` can not be encoded at all (the attribute is never resolved).
+    """
+    error = validate_announce_nlri(route.nlri, route.nexthop)
+    if error:
+        return error
+    attribute = route.attributes.get(Attribute.CODE.NEXT_HOP, None)
+    if attribute is not None and route.nexthop.afi != AFI.undefined:
+        if attribute.SELF != route.nexthop.SELF or (not attribute.SELF and attribute.top() != route.nexthop.top()):
+            return f'next-hop is given twice, with different values: {route.nlri}'
     return None
 
 
